@@ -49,7 +49,11 @@ Xml::_Xml::~_Xml()
 		return;
 	Array<Xml> pending;
 	for (int i = 0; i < children.length(); i++)
+	{
+		if (children[i]._p && children[i]._()->parent == this)
+			children[i]._()->parent = NULL; // a child that outlives this element has no parent any more
 		pending << children[i];
+	}
 	children = Array<Xml>();
 	while (pending.length() > 0)
 	{
@@ -59,7 +63,11 @@ Xml::_Xml::~_Xml()
 		{
 			_Xml* x = e._();
 			for (int i = 0; i < x->children.length(); i++)
+			{
+				if (x->children[i]._p && x->children[i]._()->parent == x)
+					x->children[i]._()->parent = NULL;
 				pending << x->children[i];
+			}
 			x->children = Array<Xml>();
 		}
 	}
